@@ -23,14 +23,14 @@ def workdir(name, fresh=True):
     return d
 
 
-def run(binary, args, cwd, out="out.h5", env_extra=None, timeout=300, stdin=None):
+def run(binary, args, cwd, out="out.h5", env_extra=None, timeout=300, stdin=None, preexec_fn=None):
     """run inovesa with BASE + args (+ -o out if out is given); returns dict(rc, log, h5path)"""
     cmd = [binary] + BASE + (["-o", out] if out else []) + [str(a) for a in args]
     e = vlib.env()
     if env_extra:
         e.update(env_extra)
     try:
-        r = subprocess.run(cmd, cwd=cwd, env=e, capture_output=True, text=True, timeout=timeout, errors="replace")
+        r = subprocess.run(cmd, cwd=cwd, env=e, capture_output=True, text=True, timeout=timeout, errors="replace", preexec_fn=preexec_fn)
         rc, log = r.returncode, (r.stdout or "") + (r.stderr or "")
     except subprocess.TimeoutExpired as ex:
         rc, log = -999, "TIMEOUT " + str(ex)
